@@ -37,7 +37,8 @@ Same == UNCHANGED <<fault, nondim, raiseOnFail>>
 \* ---- radial_solver (Python-visible wrapper) ----
 WrapperChecks == /\ pc = "wrapper_checks" /\ Same /\ UNCHANGED <<inputs, heap>>
                  /\ IF fault = "tuple_length_mismatch" THEN Raise("AttributeError")
-                    ELSE IF fault = "solve_for_not_tuple" THEN Raise("AttributeError")
+                    \* (`tuple solve_for` is a typed argument: a non-tuple is rejected by the call itself, before the body's own check)
+                    ELSE IF fault = "solve_for_not_tuple" THEN Raise("TypeError")
                     \* intended design: every validation precedes the first allocation
                     ELSE IF Guarded /\ fault \in {"unknown_layer_type", "unknown_integrator"} THEN Raise("UnknownModelError")
                     ELSE Goto("wrapper_alloc")
